@@ -839,11 +839,12 @@ func genParOpts(rng *rand.Rand, n int) parOpts {
 // worker of the answering node is held between its check of [done] and its close while
 // the others fail, then let go
 func quitRaceScenario(rng *rand.Rand, n int) input {
-	k := 2 + rng.Intn(2)
-	okAt := rng.Intn(k)
+	// GetList never uses more than (nodes+1)/2 workers: three or four nodes give the two
+	// in flight that the race needs; the answering node is one of the first two
+	k := 3 + rng.Intn(2)
+	okAt := rng.Intn(2)
 	p := &parInput{Keep: n%2 == 0}
-	var prio []int
-	prio = append(prio, okAt)
+	prio := []int{okAt}
 	for i := 0; i < k; i++ {
 		b := []string{"fail", "panic"}[rng.Intn(2)]
 		if i == okAt {
@@ -854,7 +855,7 @@ func quitRaceScenario(rng *rand.Rand, n int) input {
 		p.Nodes = append(p.Nodes, b)
 	}
 	msg := wsReq{S: sp(fmt.Sprintf("r%d", n)), I: ip(int64(rng.Intn(100))), B: bp(rng.Intn(2) == 0), D: sp(dPool[rng.Intn(len(dPool))])}
-	p.Steps = append(p.Steps, parStep{Call: true, Opts: parOpts{NoShuffle: true, Parallel: k, Quit: true}, Decoder: rng.Intn(2) == 0,
+	p.Steps = append(p.Steps, parStep{Call: true, Opts: parOpts{NoShuffle: true, Quit: true}, Decoder: rng.Intn(2) == 0,
 		WantRet: rng.Intn(4) > 0, Msg: msg, Prio: prio, Hold: &okAt})
 	// afterwards the client is still usable
 	p.Steps = append(p.Steps, parStep{Send: []parCall{{okAt, msg}}})
@@ -912,13 +913,13 @@ func parScenario(rng *rand.Rand, n int) input {
 // answering differently, two workers; node 0 answers first and is accepted, the
 // call returns, then the others answer; ret is read at the return and again after
 // every worker has finished
-// C14-N1: two nodes in flight, QuitError; node 1 answers and its worker is held at
+// C14-N1: three nodes, two in flight, QuitError; node 1 answers and its worker is held at
 // client.parAccept; node 0 fails: the call returns the error; the worker goes on
 func quitRaceWitness() input {
 	msg := wsReq{S: sp("q"), I: ip(0), B: bp(true), D: sp("")}
 	one := 1
-	return input{Kind: "witness", Par: &parInput{Nodes: []string{"fail", "ok"}, Keep: true, Steps: []parStep{
-		{Call: true, Opts: parOpts{NoShuffle: true, Parallel: 2, Quit: true}, Decoder: true, WantRet: true, Msg: msg, Prio: []int{1, 0}, Hold: &one},
+	return input{Kind: "witness", Par: &parInput{Nodes: []string{"fail", "ok", "fail"}, Keep: true, Steps: []parStep{
+		{Call: true, Opts: parOpts{NoShuffle: true, Quit: true}, Decoder: true, WantRet: true, Msg: msg, Prio: []int{1, 0, 2}, Hold: &one},
 		{Send: []parCall{{1, msg}}},
 	}}}
 }
